@@ -156,10 +156,10 @@ def parseLabel (j : Json) : R (Tid × Option Label) := do
   | [t, .str "send", c] => return (← t.getNat?, some (.send (← c.getNat?)))
   | _ => throw s!"bad label {j.compress}"
 
-def expand (p : Pid) : Option (Ev Nat Nat) × Bool → List (Op Nat Nat)
-  | (some ev, true) => [.accAcquire, .announce p ev, .accRelease]
+def expand (p : Pid) (ts : TsArg) : Option (Ev Nat Nat) × Bool → List (Op Nat Nat)
+  | (some ev, true) => [.accAcquire, .announce p ev .absent, .accRelease]
   | (none, true) => [.accAcquire, .accRelease]
-  | (some ev, false) => [.announce p ev]
+  | (some ev, false) => [.announce p ev ts]
   | (none, false) => []
 
 /-- perform the visible step thread `t` is waiting at (if it is waiting at one), then its invisible steps -/
@@ -224,7 +224,10 @@ def handle (j : Json) : R Json := do
     let progs ← (← fldArr j "progs").mapM (fun th => do
       let ops ← (← arr th).mapM (fun x => do
         let p ← fldNat x "p"
-        return expand p (← parseOp o (← fld x "op")))
+        let ts ← match x.getObjVal? "ts" with
+          | .ok t => parseTs t
+          | .error _ => pure TsArg.absent
+        return expand p ts (← parseOp o (← fld x "op")))
       return ops.flatten)
     let labels ← (← fldArr j "labels").mapM parseLabel
     let dflt : Entry Nat Nat := ⟨0, none, 0, 0⟩
